@@ -136,6 +136,29 @@ pub fn run(ctx: &Ctx) -> Report {
                 rep.fail(Failure { panel: spec.name.into(), entry: "stream".into(), class: "data-before-any-command".into(), tags: vec![], detail: format!("history: {}", ops_short(&ops)), case: case_json(spec, &ctx.variant, &ops) });
             }
             rep.nontrivial(hash_str(&format!("{}|{}", spec.name, ops_short(&ops))));
+            // the same history on a board whose D/C line powers up high: the decoded stream must not
+            // depend on it (the line is driven before every transfer it qualifies)
+            let base: Vec<(u32, u8, u32, u64)> = b.chip().cmds.iter().map(|r| (r.opidx, r.op, r.nparams, r.hash)).collect();
+            drop(b);
+            if let Ok(mut twin) = Rig::new(spec, |b| b.levels = Pin::Dc.bit(), None, false) {
+                twin.apply_all(&ops);
+                let tb = twin.board.borrow();
+                let got: Vec<(u32, u8, u32, u64)> = tb.chip().cmds.iter().map(|r| (r.opidx, r.op, r.nparams, r.hash)).collect();
+                rep.count("power_on_streams_compared", 1);
+                if base != got {
+                    let k = base.iter().zip(got.iter()).position(|(a, b)| a != b).unwrap_or(base.len().min(got.len()));
+                    let opi = base.get(k).or(got.get(k)).map(|r| r.0).unwrap_or(1) as usize;
+                    let entry = if opi <= 1 { "new".to_string() } else { ops.get(opi - 2).map(|o| o.k.name().to_string()).unwrap_or("new".into()) };
+                    rep.fail(Failure {
+                        panel: spec.name.into(),
+                        entry,
+                        class: "dc-not-driven".into(),
+                        tags: vec!["power-on=dc-high".into()],
+                        detail: format!("the controller decodes a different stream when D/C powers up high (command #{}: {:02X?} vs {:02X?}); history: {}", k, base.get(k).map(|r| (r.1, r.2)), got.get(k).map(|r| (r.1, r.2)), ops_short(&ops)),
+                        case: case_json(spec, &ctx.variant, &ops).set("power_on_levels", "dc-high"),
+                    });
+                }
+            }
         }
     }
     // ---- part 2: payload conservation across chunking, both write modes ----------------------
@@ -293,6 +316,7 @@ pub fn run(ctx: &Ctx) -> Report {
     }
     if ctx.variant == "v3" && ctx.only_panel.as_deref().map(|p| p == "epd12in48b_v2").unwrap_or(true) {
         crate::props::p12checks::c10(&mut rep);
+        crate::props::p12checks::c10_power_on_levels(&mut rep);
     }
     rep
 }
